@@ -272,6 +272,10 @@ M = [
  dict(name="divsteps_bound_from_modulus_only", prop="C10", file="src/modular/safegcd.rs",
       old="    let m = iterations(f_0.bits(), g.bits());", new="    let m = iterations(f_0.bits(), f_0.bits());",
       expect="c10.iterbound|modular::safegcd::divsteps"),
+ # --- c19.route (seed C19c)
+ dict(name="const_monty_random_full_width", prop="C19", file="src/modular/const_monty_form.rs",
+      old="        Ok(Self::new(&Uint::try_random_mod(\n            rng,\n            MOD::MODULUS.as_nz_ref(),\n        )?))", new="        Ok(Self::new(&Uint::try_random(rng)?))",
+      expect="c19.route|<modular::const_monty_form::ConstMontyForm<_> as traits::Random>::try_random"),
 ]
 
 def main():
